@@ -326,9 +326,13 @@ def recv_guards(rep, u):
             setk = key(n["y"])
     chk = set()
     for pos, root, n, ps in fn.nodes():
-        if n.get("k") == "bin" and n["op"] in ("==", "!=") and "chk_sum" in key(n):
-            other = n["x"] if "chk_sum" in key(n["y"]) else n["y"]
-            chk.add(key(other))
+        if n.get("k") == "bin" and n["op"] in ("==", "!="):
+            # one operand is the stored checksum field itself
+            kx, ky = key(core.strip_casts(n["x"])), key(core.strip_casts(n["y"]))
+            if ky.endswith("chk_sum"):
+                chk.add(key(n["x"]))
+            elif kx.endswith("chk_sum"):
+                chk.add(key(n["y"]))
     norm = lambda s: s.replace("(&(msg))->", "P.").replace("(&(msg[i]))->", "P.").replace("(&(tmsg))->", "P.").replace("msg.", "P.") if s else s
     import re
     def n2(s):
